@@ -57,6 +57,24 @@ pub const MIX: Profile = Profile {
     handle_w: [5, 3, 2, 1, 2, 1],
 };
 
+pub const RAW: Profile = Profile {
+    name: "raw-queue",
+    pools: &[1, 1, 2, 3],
+    objs: (1, 2),
+    threads: (1, 3),
+    ops: (1, 6),
+    w: Weights { desync: 5, sync: 2, try_sync: 1, future_desync: 5, after: 3, future_sync: 2, suspend: 0, drop_obj: 0, open_gate: 2, yield_: 1, handle_use: 4 },
+    body_yield: 500,
+    body_gate: 350,
+    body_block: 50,
+    body_nested: 80,
+    body_drop: 0,
+    env_gates: true,
+    faults: true,
+    prespawn_permille: 200,
+    handle_w: [4, 3, 2, 4, 1, 2],
+};
+
 pub const LATE_POLL: Profile = Profile {
     name: "late-poll",
     pools: &[1, 1, 2, 3, 0],
@@ -634,5 +652,6 @@ pub fn gen_general(rng: &mut Rng, p: &Profile) -> Program {
         blocked_objs: vec![],
         capacity_probe: vec![],
         mark_on_stream_poll: None,
+        raw_objs: vec![],
     }
 }
